@@ -740,15 +740,41 @@ package s3db
 //@ spec vacShape(s int, i int) bool = imp(0 <= i && i < seqN(s), seqValTag(s, i) == valueTag() &&
 //@     imp(!tomb(vAt(s, i)), typeis(vAt(s, i).Value, *v1proto.Row) && vAt(s, i).Value.(*v1proto.Row) != nil))
 
+// what a statement sees of an entry: a live (not deleted) row
+//@ spec visRow(e crdt.Value) bool = !tomb(e) && typeis(e.Value, *v1proto.Row) && e.Value.(*v1proto.Row) != nil && !e.Value.(*v1proto.Row).Deleted
+// a row whose delete marker is strictly older than the cutoff
+//@ spec delBefore(e crdt.Value, cutoff time.Time) bool = !tomb(e) && typeis(e.Value, *v1proto.Row) && e.Value.(*v1proto.Row) != nil && e.Value.(*v1proto.Row).Deleted &&
+//@     e.ModEpochNanos + dur(e.Value.(*v1proto.Row).DeleteUpdateOffset) < ns(cutoff)
+// a kv tombstone old enough to be purged
+//@ spec tombBefore(e crdt.Value, cutoff time.Time) bool = tomb(e) && e.TombstoneSinceEpochNanos < wrap64(ns(cutoff))
+//@ spec zeroStamp() int = wrap64(ns(time.Time{}))
+//@ spec vacRoot(name string) int = *tables[name].Tree.Root.crdt.Mast
+
 //@ func Vacuum
-//@   requires ctx != nil
+//@   requires ctx != nil && absOK(ns(beforeTime))
 //@   requires imp(has(tables, tableName) && tables[tableName] != nil, vtOK(tables[tableName]))
-//@   requires forall i int :: imp(has(tables, tableName) && tables[tableName] != nil, vacShape(*tables[tableName].Tree.Root.crdt.Mast, i))
+//@   requires forall i int :: imp(has(tables, tableName) && tables[tableName] != nil, vacShape(vacRoot(tableName), i))
 //@   modifies puts, deletes, lastPutPrefix, lastPutName, lastPutOK, tables[tableName].Tree.Root
 //@   ensures readonly: imp(has(tables, tableName) && tables[tableName] != nil && old(tables[tableName].Tree.Root.readonly), puts == old(puts) && deletes == old(deletes))
+// C09: the rows a statement sees through this table are exactly what they were, whatever the outcome
+//@   ensures rows-unchanged: forall a int :: imp(has(tables, tableName) && tables[tableName] != nil,
+//@       (has(T(vacRoot(tableName)), a) && visRow(T(vacRoot(tableName))[a])) == old(has(T(vacRoot(tableName)), a) && visRow(T(vacRoot(tableName))[a])) &&
+//@       imp(old(has(T(vacRoot(tableName)), a) && visRow(T(vacRoot(tableName))[a])), T(vacRoot(tableName))[a] == old(T(vacRoot(tableName))[a])))
+// C10: an entry disappears only if it was a delete marker strictly before the cutoff or a tombstone older than the cutoff ...
+//@   ensures reclaimed-only-before-cutoff: forall a int :: imp(has(tables, tableName) && tables[tableName] != nil && old(has(T(vacRoot(tableName)), a)) && !has(T(vacRoot(tableName)), a),
+//@       old(delBefore(T(vacRoot(tableName))[a], beforeTime)) || old(tombBefore(T(vacRoot(tableName))[a], beforeTime)))
+// ... a delete marker at or after the cutoff is kept as it was ...
+//@   ensures marker-kept: forall a int :: imp(has(tables, tableName) && tables[tableName] != nil && old(has(T(vacRoot(tableName)), a)) && old(!tomb(T(vacRoot(tableName))[a])) && !old(delBefore(T(vacRoot(tableName))[a], beforeTime)),
+//@       has(T(vacRoot(tableName)), a) && T(vacRoot(tableName))[a] == old(T(vacRoot(tableName))[a]))
+// ... and after a successful vacuum no delete marker older than the cutoff occupies the table
+//@   ensures reclaimed-all-before-cutoff: forall a int :: imp(result == nil && old(has(T(vacRoot(tableName)), a)) && old(delBefore(T(vacRoot(tableName))[a], beforeTime)), !has(T(vacRoot(tableName)), a))
 //@   loop 1 invariant db != nil && dbOK(db) && fresh(db) && tc != nil && tc.Cursor != nil && table != nil && table == tables[tableName] && table.Tree != nil
 //@   loop 1 invariant puts == old(puts) && deletes == old(deletes) && db.readonly == old(tables[tableName].Tree.Root.readonly)
-//@   loop 1 invariant gf(tc.Cursor, "snap") == old(*tables[tableName].Tree.Root.crdt.Mast)
-//@   at call:kv.(*DB).Tombstone assert only-invisible-rows: row.Deleted
-//@   at call:kv.(*DB).Tombstone assert strictly-before-cutoff: ns(rowTime) + dur(row.DeleteUpdateOffset) < ns(beforeTime)
-//@   at call:kv.DeleteHistoricVersions assert after-commit: err == nil && table.Tree.Root != nil && fresh(table.Tree.Root)
+//@   loop 1 invariant gf(tc.Cursor, "snap") == old(vacRoot(tableName)) && vacRoot(tableName) == old(vacRoot(tableName)) && 0 <= gf(tc.Cursor, "pos") && gf(tc.Cursor, "pos") <= seqN(gf(tc.Cursor, "snap"))
+//@   loop 1 invariant same-keys: forall a int :: has(T(*db.crdt.Mast), a) == old(has(T(vacRoot(tableName)), a))
+//@   loop 1 invariant exactly-the-processed-markers: forall a int :: imp(old(has(T(vacRoot(tableName)), a)),
+//@       ite(seqIdx(gf(tc.Cursor, "snap"), a) < gf(tc.Cursor, "pos") && old(delBefore(T(vacRoot(tableName))[a], beforeTime)),
+//@           tomb(T(*db.crdt.Mast)[a]) && T(*db.crdt.Mast)[a].TombstoneSinceEpochNanos == zeroStamp(),
+//@           T(*db.crdt.Mast)[a] == old(T(vacRoot(tableName))[a])))
+// history is deleted only after the purged tree was committed
+//@   at call:kv.DeleteHistoricVersions assert after-commit: err == nil
